@@ -17,6 +17,54 @@ TECHNIQUE = "R-PROV: the compared value is the recorded value (who-writes + cano
 NS, INS = tables.NS, tables.INS
 
 
+def criteria_pairing(ctx, conf, clause):
+    """Position pairing of the configured stopping criteria with their tolerances (shared with C20.3)."""
+    from ..pat import match_expr
+
+    # criteria and tolerances are paired by position: both lists must keep the order the caller gave
+    cparams = conf.params()
+    ctx.require(len(cparams) >= 3, "configure_stopping_criterion: parameters (criteria, tolerances, ...) not found")
+    user_c, user_t = cparams[1], cparams[2]
+    parents = {}
+    for n_ in ast.walk(conf.node):
+        for ch_ in ast.iter_child_nodes(n_):
+            parents[ch_] = n_
+
+    def outer_loops(node):
+        out = []
+        while node in parents:
+            node = parents[node]
+            if isinstance(node, (ast.For, ast.While)):
+                out.append(node)
+        return out[::-1]
+
+    fills, bad_fill = 0, []
+    for n_ in walk_no_nested(conf.node):
+        if isinstance(n_, ast.Assign) and any(src(t_) == "self.stopping_criterion" for t_ in n_.targets):
+            v_ = n_.value
+            if isinstance(v_, ast.List) and not v_.elts:
+                continue
+            if isinstance(v_, ast.ListComp) and isinstance(v_.generators[0].iter, ast.Name) and v_.generators[0].iter.id == user_c:
+                fills += 1
+                continue
+            bad_fill.append(src(n_)[:80])
+        if isinstance(n_, ast.Call) and isinstance(n_.func, ast.Attribute) and src(n_.func.value) == "self.stopping_criterion":
+            if n_.func.attr == "append":
+                lo = outer_loops(n_)
+                if lo and isinstance(lo[0], ast.For) and isinstance(lo[0].iter, ast.Name) and lo[0].iter.id == user_c:
+                    fills += 1
+                else:
+                    bad_fill.append(f"append under `for ... in {src(lo[0].iter) if lo and isinstance(lo[0], ast.For) else None}`")
+            elif n_.func.attr in ("insert", "extend", "sort", "reverse", "remove", "pop"):
+                bad_fill.append(src(n_)[:80])
+    ctx.ob("R-ORDER", clause, conf, "the configured criteria are stored in the order the caller listed them (outermost iteration over the caller's list): position i of the criteria pairs with tolerance i", fills == 1 and not bad_fill, f"{bad_fill}")
+    tol_st = [n_ for n_ in walk_no_nested(conf.node) if isinstance(n_, ast.Assign) and any(src(t_) == "self.tolerance" for t_ in n_.targets)]
+    okt = bool(tol_st) and all(match_expr(f"[float($$t) for $$t in {user_t}]", n_.value) is not None or match_expr(f"[float({user_t})]", n_.value) is not None for n_ in tol_st)
+    ctx.ob("R-ORDER", clause, conf, "the tolerances are stored in the caller's order (element-wise float conversion only)", okt, f"{[src(n_)[:70] for n_ in tol_st]}")
+    lens = [n_ for n_ in walk_no_nested(conf.node) if isinstance(n_, ast.If) and any(isinstance(x_, ast.Raise) for x_ in n_.body) and match_expr("len(self.stopping_criterion) != len(self.tolerance)", n_.test) is not None]
+    ctx.ob("R-ORDER", clause, conf, "a criteria / tolerance count mismatch is rejected", len(lens) == 1, "")
+
+
 def run(ctx):
     prog = ctx.prog
     res = resolver(prog)
@@ -121,48 +169,7 @@ def run(ctx):
     oks = (len(sa_) == 1 and len(stores_) == 2 and len(sa_[0][1]) == 1 and len(sa_[0][2]) == 1 and canon(sa_[0][1][0]) == "self._stop_any = True" and canon(sa_[0][2][0]) == "self._stop_any = False") \
         or (len(stores_) == 1 and canon(stores_[0].value) == "check_criteria == 'any'")
     ctx.ob("R-SIB", "C15.1", conf, "_stop_any is True exactly for check_criteria == 'any'", oks, "")
-    # criteria and tolerances are paired by position: both lists must keep the order the caller gave
-    cparams = conf.params()
-    ctx.require(len(cparams) >= 3, "configure_stopping_criterion: parameters (criteria, tolerances, ...) not found")
-    user_c, user_t = cparams[1], cparams[2]
-    parents = {}
-    for n_ in ast.walk(conf.node):
-        for ch_ in ast.iter_child_nodes(n_):
-            parents[ch_] = n_
-
-    def outer_loops(node):
-        out = []
-        while node in parents:
-            node = parents[node]
-            if isinstance(node, (ast.For, ast.While)):
-                out.append(node)
-        return out[::-1]
-
-    fills, bad_fill = 0, []
-    for n_ in walk_no_nested(conf.node):
-        if isinstance(n_, ast.Assign) and any(src(t_) == "self.stopping_criterion" for t_ in n_.targets):
-            v_ = n_.value
-            if isinstance(v_, ast.List) and not v_.elts:
-                continue
-            if isinstance(v_, ast.ListComp) and isinstance(v_.generators[0].iter, ast.Name) and v_.generators[0].iter.id == user_c:
-                fills += 1
-                continue
-            bad_fill.append(src(n_)[:80])
-        if isinstance(n_, ast.Call) and isinstance(n_.func, ast.Attribute) and src(n_.func.value) == "self.stopping_criterion":
-            if n_.func.attr == "append":
-                lo = outer_loops(n_)
-                if lo and isinstance(lo[0], ast.For) and isinstance(lo[0].iter, ast.Name) and lo[0].iter.id == user_c:
-                    fills += 1
-                else:
-                    bad_fill.append(f"append under `for ... in {src(lo[0].iter) if lo and isinstance(lo[0], ast.For) else None}`")
-            elif n_.func.attr in ("insert", "extend", "sort", "reverse", "remove", "pop"):
-                bad_fill.append(src(n_)[:80])
-    ctx.ob("R-ORDER", "C15.1", conf, "the configured criteria are stored in the order the caller listed them (outermost iteration over the caller's list): position i of the criteria pairs with tolerance i", fills == 1 and not bad_fill, f"{bad_fill}")
-    tol_st = [n_ for n_ in walk_no_nested(conf.node) if isinstance(n_, ast.Assign) and any(src(t_) == "self.tolerance" for t_ in n_.targets)]
-    okt = bool(tol_st) and all(_me(f"[float($$t) for $$t in {user_t}]", n_.value) is not None or _me(f"[float({user_t})]", n_.value) is not None for n_ in tol_st)
-    ctx.ob("R-ORDER", "C15.1", conf, "the tolerances are stored in the caller's order (element-wise float conversion only)", okt, f"{[src(n_)[:70] for n_ in tol_st]}")
-    lens = [n_ for n_ in walk_no_nested(conf.node) if isinstance(n_, ast.If) and any(isinstance(x_, ast.Raise) for x_ in n_.body) and _me("len(self.stopping_criterion) != len(self.tolerance)", n_.test) is not None]
-    ctx.ob("R-ORDER", "C15.1", conf, "a criteria / tolerance count mismatch is rejected", len(lens) == 1, "")
+    criteria_pairing(ctx, conf, "C15.1")
     csc = ctx.fn(INS + ".compute_stopping_criterion")
     rr = [n for n in walk_no_nested(csc.node) if isinstance(n, ast.Return)]
     inl = single_assignments(csc.node)
